@@ -19,7 +19,8 @@
 (* (d*257*(65535 - sa) does not fit TLC's integers: Big.tla).              *)
 (*                                                                         *)
 (* Actions: SetOp(o); ResetOnly (Reset of the embedded rasteriser, nothing *)
-(* drawn); Fill(c) = Reset, rectangle path, Draw of the uniform colour c.  *)
+(* drawn); Fill(c) = Reset, rectangle path, Draw of the uniform colour c;  *)
+(* FillEmpty(c) = the same into an empty rectangle.                        *)
 (*                                                                         *)
 (* Named deviation ResetKeepsOp: raster.Rasterizer documents that Reset    *)
 (* "includes setting z.DrawOp to draw.Over"; the Reset a vec.Rasterizer    *)
@@ -49,6 +50,8 @@ VZero(bg) == [op |-> Over, in |-> bg, ring |-> bg, out |-> bg]
 VSetOp(st, o) == [st EXCEPT !.op = o]
 VResetOnly(st) == st                                   \* ResetKeepsOp
 VFill(st, c) == [op |-> Over, in |-> Px(st.op, st.in, c, TRUE), ring |-> Px(st.op, st.ring, c, FALSE), out |-> st.out]
+(* the same with an empty rectangle (a widget that has no size yet): no pixel changes, the operator is consumed all the same *)
+VFillEmpty(st, c) == [st EXCEPT !.op = Over]
 
 Premul(c) == c[1] <= c[4] /\ c[2] <= c[4] /\ c[3] <= c[4]
 =============================================================================
